@@ -2,11 +2,14 @@ package main
 
 import (
 	"golang.org/x/telemetry/internal/verifsim/hlib"
+	"golang.org/x/telemetry/internal/verifsim/simrt"
 )
 
 func main() {
+	simrt.SchedTickLimit = 1_000_000
 	hlib.Main("h1", map[string]hlib.Scenario{
 		"C03": scenarioC03,
 		"C04": scenarioC04,
+		"C10": scenarioC10,
 	})
 }
